@@ -127,32 +127,138 @@ def _abs_ok(got, want, at):
     return got.shape == want.shape and bool(np.all(np.abs(got - want) <= at))
 
 
-def _forms(vals):
-    """scalar and container forms of a list of floats: (name, object, reference ndarray)"""
+# --------------------------------------------------------------------- sample types (hardening pass, checklist 1)
+# The identities are asserted to the precision of the arithmetic the caller selects with the sample type: numpy
+# evaluates log10 / power of float16, bool, int8, uint8 samples in float16, of float32, int16, uint16 samples in
+# float32 and of everything else (python numbers, int32, int64, uint32, uint64, float64) in float64.  `work_eps` asks
+# numpy itself, so nothing is hard-coded.
+INT_DTYPES = [np.int8, np.uint8, np.int16, np.uint16, np.int32, np.uint32, np.int64, np.uint64]
+NPINT_SCALARS = [np.int8, np.uint8, np.int32, np.int64]
+def F16_X(x):                # float16 samples are kept inside the normal range of the type
+    return 1e-4 <= abs(x) <= 6e4
+
+
+def F16_DB(d):               # and float16 dB values where idb, idbm and 1e3*idbm stay inside it
+    return -10 <= d <= 45
+
+
+def work_eps(dt):
+    return float(np.finfo(np.log10(np.ones(1, dtype=dt)).dtype).eps)
+
+
+def rt_inv(x, eps):
+    """relative tolerance of idb(db(x)) = x evaluated with rounding unit eps: log10 (1.5 ulp of |log10 x|), the
+    division by ten (0.5 ulp) and the power (exponent error times ln 10, + 1 ulp) give (6 |log10 x| + 2) eps;
+    float64: the documented 1e-12 inside the 30 decades (>= 100 x the bound), 16 x the bound outside; narrower types: 4 x"""
+    x = np.abs(np.asarray(x, dtype=float))
+    with np.errstate(all='ignore'):
+        b = (6 * np.abs(np.log10(np.where(x > 0, x, 1.0))) + 2) * eps
+    return np.maximum(RT_INV, 16 * b) if eps == EPS else 4 * b
+
+
+def at_db(d, eps, base):
+    """absolute tolerance of a dB figure of size |d| that went through k roundings of size |d| eps: the documented
+    float64 tolerance `base` (valid up to |d| = 300) or 30 (|d| + 10) eps, whichever is larger; narrower types: 8 (|d|+40) eps"""
+    d = np.abs(np.asarray(d, dtype=float))
+    return np.maximum(base, 30 * (d + 10) * eps) if eps == EPS else 8 * (d + 40) * eps
+
+
+def _fits(v, dt):
+    ii = np.iinfo(dt)
+    return float(v).is_integer() and ii.min <= int(v) <= ii.max
+
+
+def _forms(vals, f16=F16_X):
+    """scalar and container forms of a list of floats: (name, class suffix of the violation key, object, reference
+    ndarray, rounding unit, lenient).  lenient: numpy scalar types other than np.float64 - the library documents
+    TypeError for db/dbm when x is not a (python) number, list, tuple or ndarray, so a TypeError/ValueError is accepted there,
+    a returned value is judged like any other."""
     out = []
+    e32, e16 = work_eps(np.float32), work_eps(np.float16)
+    tiny32 = float(np.finfo(np.float32).tiny)
+
+    def ok32(x):
+        with np.errstate(all='ignore'):
+            f = float(np.float32(x))
+        return x == 0 or (np.isfinite(f) and abs(f) >= tiny32)
+
     for x in vals:
-        out.append(('float', x, np.float64(x)))
-        out.append(('np.float64', np.float64(x), np.float64(x)))
+        out.append(('float', '', x, np.float64(x), EPS, False))
+        out.append(('np.float64', '', np.float64(x), np.float64(x), EPS, False))
+        out.append(('0-d array', '', np.array(x, dtype=float), np.float64(x), EPS, False))
         if float(x).is_integer() and abs(x) < 2 ** 62:
-            out.append(('int', int(x), np.float64(x)))
+            out.append(('int', '', int(x), np.float64(x), EPS, False))
+            for dt in NPINT_SCALARS:
+                if _fits(x, dt):
+                    out.append((f'np.{dt.__name__}', ':int-dtype', dt(int(x)), np.float64(x), work_eps(dt), True))
+        if x in (0, 1):
+            out.append(('bool', ':int-dtype', bool(x), np.float64(x), EPS, False))
+            out.append(('np.bool_', ':int-dtype', np.bool_(x), np.float64(x), e16, True))
+        if ok32(x):
+            out.append(('np.float32', ':narrow-float', np.float32(x), np.float64(np.float32(x)), e32, True))
     a = np.array(vals, dtype=float)
-    out.append(('list', list(vals), a))
-    out.append(('tuple', tuple(vals), a))
-    out.append(('array', a.copy(), a))
-    out.append(('array2d', np.array([vals, vals[::-1]], dtype=float), np.array([vals, vals[::-1]], dtype=float)))
-    if all(float(x).is_integer() and abs(x) < 2 ** 62 for x in vals):
-        out.append(('int-array', np.array([int(x) for x in vals], dtype=np.int64), a))
-    return out
+    out.append(('list', '', list(vals), a, EPS, False))
+    out.append(('tuple', '', tuple(vals), a, EPS, False))
+    out.append(('array', '', a.copy(), a, EPS, False))
+    a2 = np.array([vals, vals[::-1]], dtype=float)
+    out.append(('array2d', '', a2.copy(), a2, EPS, False))
+    out.append(('nested-list', '', [list(vals), list(vals[::-1])], a2, EPS, False))
+    out.append(('nested-tuple', '', (tuple(vals), tuple(vals[::-1])), a2, EPS, False))
+    out.append(('list1', '', [vals[0]], a[:1], EPS, False))
+    out.append(('array1', '', a[:1].copy(), a[:1], EPS, False))
+    out.append(('array(1,1)', '', a[:1].reshape(1, 1).copy(), a[:1].reshape(1, 1), EPS, False))
+    out.append(('empty-list', '', [], np.zeros(0), EPS, False))
+    out.append(('strided-view', '', np.repeat(a, 2)[::2], a, EPS, False))
+    v32 = [x for x in vals if ok32(x)]
+    if v32:
+        a32 = np.array(v32, dtype=np.float32)
+        out.append(('float32-array', ':narrow-float', a32, a32.astype(float), e32, False))
+    v16 = [x for x in vals if f16(x)]
+    if v16:
+        a16 = np.array(v16, dtype=np.float16)
+        out.append(('float16-array', ':narrow-float', a16, a16.astype(float), e16, False))
+    ints = [x for x in vals if float(x).is_integer() and abs(x) < 2 ** 64]
+    if ints:
+        out.append(('int-list', '', [int(x) for x in ints if abs(x) < 2 ** 62], np.array([x for x in ints if abs(x) < 2 ** 62], dtype=float), EPS, False))
+        for dt in INT_DTYPES:
+            sub = [int(x) for x in ints if _fits(x, dt)]
+            if sub:
+                out.append((f'{dt.__name__}-array', '' if dt is np.int64 else ':int-dtype', np.array(sub, dtype=dt), np.array(sub, dtype=float), work_eps(dt), False))
+        b = [x for x in ints if x in (0, 1)]
+        if b:
+            out.append(('bool-array', ':int-dtype', np.array(b, dtype=bool), np.array(b, dtype=float), work_eps(bool), False))
+    return [f for f in out if not (isinstance(f[2], list) and f[0] == 'int-list' and not f[2])]
 
 
 def _neg(obj):
+    """the negated input, or None where the type has no negative values (unsigned, bool, empty)"""
+    if isinstance(obj, (bool, np.bool_)):
+        return None
+    if isinstance(obj, np.generic):
+        return None if obj.dtype.kind == 'u' else -obj
     if isinstance(obj, np.ndarray):
-        return -obj
-    if isinstance(obj, list):
-        return [-v for v in obj]
-    if isinstance(obj, tuple):
-        return tuple(-v for v in obj)
+        return None if (obj.dtype.kind in 'ub' or obj.size == 0) else -obj
+    if isinstance(obj, (list, tuple)):
+        if len(obj) == 0:
+            return None
+        return type(obj)(_neg(v) if isinstance(v, (list, tuple)) else -v for v in obj)
     return -obj
+
+
+def _snap(obj):
+    """write-protect an ndarray argument and return a byte snapshot of any argument (checklist 9)"""
+    if isinstance(obj, np.ndarray):
+        obj.setflags(write=False)
+        return arr_key(obj)
+    return repr(obj)
+
+
+def _refused(A, lenient, exc):
+    """a numpy scalar type the library does not take as a number (documented TypeError of db/dbm): accepted, counted"""
+    if lenient and isinstance(exc, (TypeError, ValueError)):
+        A.stat('numpy-scalar-type-refused(accepted)')
+        return True
+    return False
 
 
 def fam_db(case):
@@ -161,36 +267,46 @@ def fam_db(case):
     A = Acc('db')
     xs = [float(f'{m}e{e}') for m in MANT]
     allpos = np.array(ALLPOS)
-    for name, obj, ref in _forms(xs):
+    for name, cls, obj, ref, eps, lenient in _forms(xs):
         tag = f'{name}:{obj!r}'[:120]
+        snap = _snap(obj)
+        nt = bool(np.any(ref != 1))
         # inverse pairs
         for fwd, inv, key in ((db, idb, 'db:idb(db(x))!=x'), (dbm, idbm, 'dbm:idbm(dbm(x))!=x')):
             st, y = call(fwd, obj)
             if st == 'exc':
-                A.v(f'{key.split(":")[0]}:raises-{type(y).__name__}', f'{fwd.__name__}({tag}) raised {y!r}')
+                if not _refused(A, lenient, y):
+                    A.v(f'{key.split(":")[0]}:raises-{type(y).__name__}{cls}', f'{fwd.__name__}({tag}) raised {y!r}')
                 continue
             st, z = call(inv, y)
             if st == 'exc':
-                A.v(f'{inv.__name__}:raises-{type(z).__name__}', f'{inv.__name__}({y!r}) raised {z!r}')
+                A.v(f'{inv.__name__}:raises-{type(z).__name__}{cls}', f'{inv.__name__}({y!r}) raised {z!r}')
                 continue
-            A.item((fwd.__name__, name, repr(obj)), arr_key(y), nontrivial=bool(np.any(ref != 1)))
-            if not _rel_ok(z, ref, RT_INV):
-                A.v(key, f'{inv.__name__}({fwd.__name__}({tag})) = {z!r}, expected {ref!r} (rtol {RT_INV})')
+            A.item((fwd.__name__, name, repr(obj)), arr_key(y), nontrivial=nt)
+            if np.shape(y) != np.shape(ref):
+                A.v(f'{fwd.__name__}:shape{cls}', f'{fwd.__name__}({tag}) has shape {np.shape(y)}, input shape {np.shape(ref)}')
+            elif not _rel_ok(z, ref, rt_inv(ref, eps)):
+                A.v(key + cls, f'{inv.__name__}({fwd.__name__}({tag})) = {z!r}, expected {ref!r} (rtol {np.max(rt_inv(ref, eps)) if np.size(ref) else 0:.1e})')
         # dbm = db + 30
         s1, a = call(db, obj)
         s2, b = call(dbm, obj)
         if s1 == 'ok' and s2 == 'ok':
-            A.item(('dbm-db', name, repr(obj)), arr_key(np.asarray(b) - np.asarray(a)), nontrivial=bool(np.any(ref != 1)))
-            if not _abs_ok(b, np.asarray(a, dtype=float) + 30, AT_HOM):
-                A.v('dbm:dbm(x)!=db(x)+30', f'dbm({tag}) = {b!r}, db+30 = {np.asarray(a) + 30!r}')
+            A.item(('dbm-db', name, repr(obj)), arr_key(np.asarray(b) - np.asarray(a)), nontrivial=nt)
+            if not _abs_ok(b, np.asarray(a, dtype=float) + 30, at_db(np.asarray(a, dtype=float), eps, AT_HOM)):
+                A.v('dbm:dbm(x)!=db(x)+30' + cls, f'dbm({tag}) = {b!r}, db+30 = {np.asarray(a) + 30!r}')
         # negative inputs raise ValueError
+        nobj = _neg(obj)
         for fn in (db, dbm):
-            st, y = call(fn, _neg(obj))
+            if nobj is None:
+                continue
+            st, y = call(fn, nobj)
             A.item((fn.__name__, 'neg', name, repr(obj)), ('exc', type(y).__name__) if st == 'exc' else arr_key(y))
             if st == 'ok':
-                A.v(f'{fn.__name__}:negative-accepted', f'{fn.__name__}({_neg(obj)!r}) returned {y!r}, ValueError required')
-            elif not isinstance(y, ValueError):
-                A.v(f'{fn.__name__}:negative-raises-{type(y).__name__}', f'{fn.__name__}({_neg(obj)!r}) raised {y!r}, ValueError required')
+                A.v(f'{fn.__name__}:negative-accepted{cls}', f'{fn.__name__}({nobj!r}) returned {y!r}, ValueError required')
+            elif not isinstance(y, ValueError) and not _refused(A, lenient, y):
+                A.v(f'{fn.__name__}:negative-raises-{type(y).__name__}{cls}', f'{fn.__name__}({nobj!r}) raised {y!r}, ValueError required')
+        if _snap(obj) != snap:
+            A.v(f'db:input-modified{cls}', f'db/dbm/idb/idbm changed their argument {tag}')
     # one negative entry among positives, at every position
     for pos in range(len(xs)):
         mixed = list(xs)
@@ -232,26 +348,108 @@ def fam_dbv(case):
     _, lo, hi = case
     ds = DBVALS[lo:hi]
     A = Acc('dbv')
-    for name, obj, ref in _forms(ds):
+    for name, cls, obj, ref, eps, lenient in _forms(ds, f16=F16_DB):
         tag = f'{name}:{obj!r}'[:120]
+        snap = _snap(obj)
         for inv, fwd, key in ((idb, db, 'idb:db(idb(d))!=d'), (idbm, dbm, 'idbm:dbm(idbm(d))!=d')):
             st, y = call(inv, obj)
             if st == 'exc':
-                A.v(f'{inv.__name__}:raises-{type(y).__name__}', f'{inv.__name__}({tag}) raised {y!r}')
+                if not _refused(A, lenient, y):
+                    A.v(f'{inv.__name__}:raises-{type(y).__name__}{cls}', f'{inv.__name__}({tag}) raised {y!r}')
                 continue
-            st, z = call(fwd, y)
+            st, z = call(fwd, y)           # chained call: what idb returned (numpy scalar / array) goes into db
             if st == 'exc':
-                A.v(f'{fwd.__name__}:raises-{type(z).__name__}', f'{fwd.__name__}({inv.__name__}({tag})) raised {z!r}')
+                if not (isinstance(y, np.generic) and not isinstance(y, float) and _refused(A, True, z)):
+                    A.v(f'{fwd.__name__}:raises-{type(z).__name__}{cls}', f'{fwd.__name__}({inv.__name__}({tag})) raised {z!r}')
                 continue
             A.item((inv.__name__, name, repr(obj)), arr_key(y), nontrivial=bool(np.any(ref != 0)))
-            if not _abs_ok(z, ref, AT_DB):
-                A.v(key, f'{fwd.__name__}({inv.__name__}({tag})) = {z!r}, expected {ref!r} (atol {AT_DB})')
+            if np.shape(y) != np.shape(ref):
+                A.v(f'{inv.__name__}:shape{cls}', f'{inv.__name__}({tag}) has shape {np.shape(y)}, input shape {np.shape(ref)}')
+            elif not _abs_ok(z, ref, at_db(ref, eps, AT_DB)):
+                A.v(key + cls, f'{fwd.__name__}({inv.__name__}({tag})) = {z!r}, expected {ref!r} (atol {AT_DB})')
+        if _snap(obj) != snap:
+            A.v(f'idb:input-modified{cls}', f'idb/idbm/db/dbm changed their argument {tag}')
     return A.done()
 
 
 # ===================================================================== Q / gaus
-QGRID = [k / 16 for k in range(-128, 129)]     # [-8, 8] step 1/16, exact dyadics
+QGRID = [k / 16 for k in range(-128, 129)]     # [-8, 8] step 1/16, exact dyadics (also exact in float32 and float16)
+QINTS = [float(k) for k in range(-8, 9)]
+QFAR = [9.0, 10.0, 20.0, 26.0, 37.0, 38.0, 39.0, 40.0, 100.0, 1e3, 1e6, 1e15, 1e100, 1e300, 1.7976931348623157e308]
+QFAR = [-v for v in reversed(QFAR)] + [0.0] + QFAR
 GAUS_PAR = [(mu, sd) for mu in (0, -2, 3.5) for sd in (1, 0.1, 7)] + [(None, None), (None, 0.1), (3.5, None)]
+# scale and offset (checklist 5): picosecond ... terahertz widths, a mean of 3 sigma at each scale, a large offset with a small width
+GAUS_SCALE = [(0, 1e-12), (0, 1e-9), (0, 1e-6), (0, 1e6), (0, 1e12), (3e-12, 1e-12), (3e-9, 1e-9), (-3e6, 1e6), (3e12, 1e12),
+              (1e6, 1.0), (-1e3, 1e-3), (193.1e12, 12.5e9)]
+# forms of Q: name -> (points, how the argument is built, sample dtype that fixes the working precision, lenient)
+Q_FORMS = ['scalar', 'scalar-mixed', 'array', 'list', 'tuple2d',
+           'np.float64-scalar', '0-d array', 'np.float32-scalar', 'np.int64-scalar', 'np.int8-scalar', 'bool-scalar',
+           'array2d', 'len1-arrays', 'strided-view', 'int-list', 'float32-array', 'float16-array',
+           'int8-array', 'int16-array', 'int32-array', 'int64-array', 'uint8-array', 'uint16-array', 'uint32-array', 'uint64-array',
+           'bool-array', 'far-array', 'far-scalar']
+
+
+def _q_eval(Q, form):
+    """-> (points, Q(points), Q(-points), rounding unit, lenient) or ('exc', exception, lenient)"""
+    scal = {'scalar': float, 'np.float64-scalar': np.float64, '0-d array': lambda t: np.array(t), 'np.float32-scalar': np.float32,
+            'np.int64-scalar': lambda t: np.int64(int(t)), 'np.int8-scalar': lambda t: np.int8(int(t)), 'far-scalar': float,
+            'len1-arrays': lambda t: np.array([t])}
+    if form in scal or form in ('scalar-mixed', 'bool-scalar'):
+        pts = QINTS if form in ('np.int64-scalar', 'np.int8-scalar') else QFAR if form == 'far-scalar' else [0.0, 1.0] if form == 'bool-scalar' else QGRID
+        eps = work_eps(np.float32) if form == 'np.float32-scalar' else EPS
+        lenient = form in ('np.float32-scalar', 'np.int64-scalar', 'np.int8-scalar')
+        vals, valsm = [], []
+        for t in pts:
+            if form == 'scalar-mixed':
+                tt, tm = (int(t), -int(t)) if float(t).is_integer() else (t, -t)
+            elif form == 'bool-scalar':
+                tt, tm = bool(t), -int(t)
+            else:
+                tt, tm = scal[form](t), scal[form](-t)
+            s, v = call(Q, tt)
+            s2, vm = call(Q, tm)
+            if s == 'exc' or s2 == 'exc':
+                return 'exc', (v if s == 'exc' else vm), lenient
+            if np.size(v) != 1 or np.size(vm) != 1:
+                return 'exc', ValueError(f'Q({tt!r}) returned {v!r}'), False
+            vals.append(float(np.asarray(v).reshape(())))
+            valsm.append(float(np.asarray(vm).reshape(())))
+        return pts, np.array(vals), np.array(valsm), eps, lenient
+    pts, dt, wrap = QGRID, float, (lambda a: a)
+    if form == 'list':
+        wrap = lambda a: [float(t) for t in a]
+    elif form == 'int-list':
+        pts, wrap = QINTS, (lambda a: [int(t) for t in a])
+    elif form == 'tuple2d':
+        wrap = lambda a: (tuple(float(t) for t in a), tuple(float(t) for t in a))
+    elif form == 'array2d':
+        wrap = lambda a: np.array([a, a])
+    elif form == 'strided-view':
+        wrap = lambda a: np.repeat(a, 3)[::3]
+    elif form == 'far-array':
+        pts = QFAR
+    elif form == 'bool-array':
+        pts, dt = [0.0, 1.0], bool
+    elif form.endswith('-array') and form != 'array':
+        dt = getattr(np, form[:-6])
+        pts = QGRID if dt in (np.float32, np.float16) else [t for t in QINTS if t >= 0] if np.dtype(dt).kind == 'u' else QINTS
+    x = np.array(pts, dtype=dt)
+    # the mirrored argument: unsigned and bool samples have no negatives, -x is supplied as a signed array of the same width or wider
+    xm = -x if np.dtype(dt).kind in 'fi' else -np.array(pts, dtype=np.int64)
+    eps = EPS if np.dtype(dt).kind in 'iub' else float(np.finfo(dt).eps)
+    snap = (_snap(x), _snap(xm))
+    s, q = call(Q, wrap(x))
+    s2, qm = call(Q, wrap(xm))
+    if s == 'exc' or s2 == 'exc':
+        return 'exc', (q if s == 'exc' else qm), False
+    if (_snap(x), _snap(xm)) != snap:
+        return 'exc', ValueError('Q changed its argument'), False
+    q, qm = np.asarray(q), np.asarray(qm)
+    if form in ('tuple2d', 'array2d'):
+        if q.shape != (2, len(pts)) or qm.shape != (2, len(pts)) or not np.array_equal(q[0], q[1]):
+            return 'exc', ValueError(f'Q of a 2-row input has shape {q.shape} / differing rows'), False
+        q, qm = q[1], qm[0]
+    return pts, q.astype(float) if q.shape == (len(pts),) else q, qm.astype(float) if qm.shape == (len(pts),) else qm, eps, False
 
 
 def fam_q(case):
@@ -260,55 +458,36 @@ def fam_q(case):
     from scipy.integrate import quad
     _, form = case
     A = Acc('Q')
-    x = np.array(QGRID)
+    cls = ':narrow-float' if 'float32' in form or 'float16' in form else ':int-dtype' if ('int' in form and form != 'int-list') or 'bool' in form else \
+        ':far' if form.startswith('far') else ''
+    r = _q_eval(Q, form)
+    if r[0] == 'exc':
+        if not _refused(A, r[2], r[1]):
+            A.v(f'Q:raises{cls}', f'Q raised on the grid ({form}): {r[1]!r}')
+        return A.done()
+    pts, q, qm, eps, _ = r
+    x = np.array(pts, dtype=float)
     ref = norm.sf(x)
-    if form == 'array':
-        st, q = call(Q, x)
-        st2, qm = call(Q, -x)
-    elif form == 'list':
-        st, q = call(Q, list(QGRID))
-        st2, qm = call(Q, [-t for t in QGRID])
-    elif form == 'tuple2d':
-        st, q = call(Q, (tuple(QGRID), tuple(QGRID)))
-        st2, qm = call(Q, (tuple(-t for t in QGRID), tuple(-t for t in QGRID)))
-        if st == 'ok' and st2 == 'ok':
-            q, qm = np.asarray(q)[1], np.asarray(qm)[0]
-    else:   # python scalars: floats ('scalar') or ints where the grid point is integral ('scalar-mixed')
-        vals, valsm = [], []
-        st = st2 = 'ok'
-        for t in QGRID:
-            tt = int(t) if (form == 'scalar-mixed' and float(t).is_integer()) else t
-            s, v = call(Q, tt)
-            s2, vm = call(Q, -tt)
-            if s == 'exc' or s2 == 'exc':
-                st = 'exc'
-                break
-            vals.append(float(v))
-            valsm.append(float(vm))
-        if st == 'ok':
-            q, qm = np.array(vals, dtype=float), np.array(valsm, dtype=float)
-    if st == 'exc' or st2 == 'exc':
-        A.v('Q:raises', f'Q raised on the grid ({form})')
+    if q.shape != x.shape or qm.shape != x.shape:
+        A.v(f'Q:shape{cls}', f'Q({form}) has shape {q.shape}, expected {x.shape}')
         return A.done()
-    q = np.asarray(q, dtype=float)
-    qm = np.asarray(qm, dtype=float)
-    if q.shape != x.shape:
-        A.v('Q:shape', f'Q({form}) has shape {q.shape}, expected {x.shape}')
-        return A.done()
-    for i, t in enumerate(QGRID):
+    sym_tol = 1e-14 if eps == EPS else 8 * eps           # two erfc values of relative accuracy ~eps, sum <= 2
+    for i, t in enumerate(pts):
         A.item((form, t), float(q[i]).hex(), nontrivial=(t != 0))
-        if not abs(q[i] + qm[i] - 1) <= 1e-14:        # two erfc values of relative accuracy ~eps, sum <= 2
-            A.v('Q:Q(x)+Q(-x)!=1', f'x={t}: Q(x)={q[i]!r} Q(-x)={qm[i]!r} sum-1={q[i] + qm[i] - 1:.3e} ({form})')
-        if not abs(q[i] - ref[i]) <= 1e-12 * ref[i]:  # erfc(x/sqrt2): argument rounding gives x^2 eps <= 64 eps relative
-            A.v('Q:not-the-gaussian-tail', f'x={t}: Q(x)={q[i]!r}, standard normal tail = {ref[i]!r} ({form})')
-        if i and not q[i] <= q[i - 1]:
-            A.v('Q:not-decreasing', f'Q({QGRID[i - 1]})={q[i - 1]!r} < Q({t})={q[i]!r} ({form})')
-        if i and ref[i - 1] - ref[i] > 1e-14 and not q[i] < q[i - 1]:
-            A.v('Q:not-decreasing', f'Q({QGRID[i - 1]})={q[i - 1]!r} == Q({t})={q[i]!r} (strict decrease expected, {form})')
-    i0 = QGRID.index(0.0)
-    if not abs(q[i0] - 0.5) <= 1e-15:
-        A.v('Q:Q(0)!=1/2', f'Q(0) = {q[i0]!r} ({form})')
-    if form.startswith('scalar'):
+        # erfc(x/sqrt2): argument rounding gives x^2 eps relative (<= 64 eps on the grid): 1e-12 in float64 there, 16 x the bound elsewhere
+        rtol = max(1e-12 if eps == EPS else 0.0, 16 * (min(t * t, 1e6) + 4) * eps)
+        if not abs(q[i] + qm[i] - 1) <= sym_tol:
+            A.v(f'Q:Q(x)+Q(-x)!=1{cls}', f'x={t}: Q(x)={q[i]!r} Q(-x)={qm[i]!r} sum-1={q[i] + qm[i] - 1:.3e} ({form})')
+        if not abs(q[i] - ref[i]) <= rtol * ref[i] + 1e-300:
+            A.v(f'Q:not-the-gaussian-tail{cls}', f'x={t}: Q(x)={q[i]!r}, standard normal tail = {ref[i]!r} ({form})')
+        if i and not q[i] <= q[i - 1] + (0 if eps == EPS else 4 * eps):
+            A.v(f'Q:not-decreasing{cls}', f'Q({pts[i - 1]})={q[i - 1]!r} < Q({t})={q[i]!r} ({form})')
+        if i and ref[i - 1] - ref[i] > max(1e-14, 4 * rtol * ref[i - 1]) and not q[i] < q[i - 1]:
+            A.v(f'Q:not-decreasing{cls}', f'Q({pts[i - 1]})={q[i - 1]!r} == Q({t})={q[i]!r} (strict decrease expected, {form})')
+    i0 = pts.index(0.0)
+    if not abs(q[i0] - 0.5) <= (1e-15 if eps == EPS else 2 * eps):
+        A.v(f'Q:Q(0)!=1/2{cls}', f'Q(0) = {q[i0]!r} ({form})')
+    if form in ('scalar', 'scalar-mixed'):
         # self-consistency with gaus: Q(a) is the integral of gaus over [a, inf)  (quad epsabs 1.5e-8)
         for a in range(-8, 9):
             val, err = quad(lambda t: float(gaus(t)), a, np.inf)
@@ -316,6 +495,10 @@ def fam_q(case):
             if not abs(val - q[QGRID.index(float(a))]) <= 1e-7:
                 A.v('Q:not-the-integral-of-gaus', f'Q({a})={q[QGRID.index(float(a))]!r}, integral of gaus over [{a},inf) = {val!r}')
     return A.done()
+
+
+GAUS_FORMS = ['array', 'list', 'scalar', 'positional', 'array2d', 'strided-view', 'np.float64-scalar', '0-d array', 'float32-array',
+              'np.float64-params', 'float-params', 'int-params', 'np.int64-params']
 
 
 def fam_gaus(case):
@@ -332,104 +515,182 @@ def fam_gaus(case):
         kw['mu'] = mu
     if sd is not None:
         kw['std'] = sd
-    for form in ('array', 'list', 'scalar', 'positional'):
-        if form == 'array':
-            st, g = call(gaus, t, **kw)
+    moderate = (mu, sd) in GAUS_PAR
+    for form in GAUS_FORMS:
+        eps, tt, kw2, cls = EPS, t, kw, (':int-params' if form in ('int-params', 'np.int64-params') else '')
+        if form == 'float32-array':
+            if not moderate:
+                continue
+            tt, eps, cls = t.astype(np.float32), float(np.finfo(np.float32).eps), ':narrow-float'
+        elif form.endswith('-params'):
+            conv = {'np.float64-params': np.float64, 'float-params': float, 'int-params': int, 'np.int64-params': np.int64}[form]
+            if not kw or (conv in (int, np.int64) and not all(float(v).is_integer() for v in kw.values())):
+                continue
+            kw2 = {k: conv(v) for k, v in kw.items()}
+        snap = _snap(tt) if form != 'list' else None
+        if form in ('array', 'float32-array') or form.endswith('-params'):
+            st, g = call(gaus, tt, **kw2)
         elif form == 'list':
             st, g = call(gaus, list(t), **kw)
         elif form == 'positional':
             st, g = call(gaus, t, mu, sd)
+        elif form == 'array2d':
+            st, g = call(gaus, np.array([t, t[::-1]]), **kw)
+            if st == 'ok' and np.shape(g) == (2, t.size):
+                if not np.array_equal(np.asarray(g)[0], np.asarray(g)[1][::-1]):
+                    A.v('gaus:shape', f'mu={mu} std={sd}: rows of a 2-D input (x and reversed x) give different values')
+                g = np.asarray(g)[0]
+        elif form == 'strided-view':
+            st, g = call(gaus, np.repeat(t, 2)[::2], **kw)
         else:
+            conv = {'scalar': float, 'np.float64-scalar': np.float64, '0-d array': lambda v: np.array(v)}[form]
             gl = []
             st = 'ok'
             for v in t:
-                st, gv_ = call(gaus, float(v), **kw)
-                if st == 'exc':
-                    g = gv_
+                st, gv_ = call(gaus, conv(v), **kw)
+                if st == 'exc' or np.size(gv_) != 1:
+                    st, g = 'exc', (gv_ if st == 'exc' else ValueError(f'gaus of a scalar returned {gv_!r}'))
                     break
                 gl.append(float(gv_))
             if st == 'ok':
                 g = np.array(gl)
         if st == 'exc':
-            A.v(f'gaus:raises-{type(g).__name__}', f'gaus(..., {kw}) raised {g!r} ({form})')
+            A.v(f'gaus:raises-{type(g).__name__}{cls}', f'gaus(..., {kw2}) raised {g!r} ({form})')
             continue
+        if snap is not None and _snap(tt) != snap:
+            A.v(f'gaus:input-modified{cls}', f'gaus changed its argument ({form})')
         g = np.asarray(g, dtype=float)
         if g.shape != t.shape:
-            A.v('gaus:shape', f'shape {g.shape} for input shape {t.shape}')
+            A.v(f'gaus:shape{cls}', f'shape {g.shape} for input shape {t.shape} ({form})')
             continue
-        integral = float(np.sum(g) * h - 0.5 * h * (g[0] + g[-1]))
+        tf = np.asarray(tt, dtype=float)
+        integral = float(np.sum(0.5 * (g[1:] + g[:-1]) * np.diff(tf))) if form == 'float32-array' else float(np.sum(g) * h - 0.5 * h * (g[0] + g[-1]))
         A.item((form, mu, sd), arr_key(g))
-        if not abs(integral - 1) <= 1e-12:    # 385 terms, each relative error few eps -> < 1e-13
-            A.v('gaus:integral!=1', f'mu={mu} std={sd}: trapezoid integral over mu+-12 std = {integral!r} ({form})')
+        # 385 terms, each relative error few eps -> < 1e-13 (float64); the nodes mu + k sigma/16 are rounded to ulp(|mu|+12 sigma),
+        # which moves each value by z ulp/sigma relative: 8 eps (|mu|+12 sigma)/sigma covers it 20 times (only matters for |mu| >> sigma)
+        tol = 1e-12 * (eps / EPS) + 8 * eps * (abs(m) + 12 * s) / s
+        if not abs(integral - 1) <= tol:
+            A.v(f'gaus:integral!=1{cls}', f'mu={mu} std={sd}: trapezoid integral over mu+-12 std = {integral!r} ({form}, tolerance {tol:.1e})')
         if np.any(g < 0):
-            A.v('gaus:negative', f'mu={mu} std={sd}: negative density ({form})')
+            A.v(f'gaus:negative{cls}', f'mu={mu} std={sd}: negative density ({form})')
     return A.done()
 
 
 # ===================================================================== rcos
-def rcos_points(alpha, T):
+def rcos_points(alpha, T, dt=np.float64):
+    """symmetric sorted grid of sample points, all exactly representable in the floating type dt: the 1/64 grid of
+    +-1.5/T (for T outside [1/8, 8]: 96 steps of 1/(64 T)), the three corners (1-alpha)/(2T), 1/(2T), (1+alpha)/(2T) with
+    their two neighbours IN dt, and far points"""
     lim = 1.5 / T
-    n = int(math.floor(lim * 64))
-    pts = {k / 64 for k in range(0, n + 1)}
+    if 0.125 <= T <= 8:
+        pts = {k / 64 for k in range(0, int(math.floor(lim * 64)) + 1)}
+    else:
+        pts = {k / (64 * T) for k in range(0, 97)}
     corners = [(1 - alpha) / (2 * T), 1 / (2 * T), (1 + alpha) / (2 * T)]
     for c in corners:
-        pts.update([c, float(np.nextafter(c, np.inf)), float(np.nextafter(c, 0))] if c > 0 else [c])
-    pts.update([lim, lim + 1, 10 / T, 1e6])
-    pts = sorted(p for p in pts if p >= 0)
+        cd = dt(c)
+        pts.update([float(cd), float(np.nextafter(cd, dt(np.inf))), float(np.nextafter(cd, dt(0)))] if c > 0 else [c])
+    pts.update([lim, lim + 1 / T, 10 / T, 1e6 / T] if dt is not np.float16 else [lim, lim + 1 / T, 10 / T])
+    with np.errstate(all='ignore'):
+        pts = sorted({float(dt(p)) for p in pts if p >= 0 and np.isfinite(dt(p))})
     return [-p for p in reversed(pts) if p > 0] + pts       # symmetric, sorted
 
 
-def rcos_ints(T):
+def rcos_ints(T, dt=None):
+    """integer sample points: every integer up to ceil(1.5/T)+1 and (extreme but legal) the smallest and largest value of the type"""
     m = int(math.ceil(1.5 / T)) + 1
-    return list(range(-m, m + 1))
+    if m > 1000:                      # a symbol period far below one: 0, +-1, +-2 and the extremes
+        m = 2
+    pts = set(range(-m, m + 1))
+    ii = np.iinfo(dt if dt is not None else np.int64)
+    pts.update([ii.min, ii.max, -ii.max] if ii.min < 0 else [ii.max])
+    return sorted(p for p in pts if ii.min <= p <= ii.max)
 
 
-RCOS_FORMS = ['scalar', 'np.float64', 'array', 'list', 'tuple', 'array2d',
-              'int-scalar', 'int-array', 'int32-array', 'int-list', 'int-tuple']
+# form -> (kind of the violation key, sample type, container)
+RCOS_SCALARS = {'scalar': float, 'np.float64': np.float64, '0-d array': lambda v: np.array(float(v)), 'int-scalar': int,
+                'np.float32-scalar': np.float32, 'np.int64-scalar': np.int64, 'np.int8-scalar': np.int8, 'bool-scalar': bool,
+                'len1-arrays': lambda v: np.array([float(v)]), 'len1-int-lists': lambda v: [int(v)]}
+RCOS_LENIENT = ('np.float32-scalar', 'np.int64-scalar', 'np.int8-scalar')    # rcos documents ValueError for x that is neither a number nor array_like
+RCOS_ARRAYS = {'array': np.float64, 'list': np.float64, 'tuple': np.float64, 'array2d': np.float64, 'strided-view': np.float64,
+               'float32-array': np.float32, 'float16-array': np.float16,
+               'int-array': np.int64, 'int32-array': np.int32, 'int8-array': np.int8, 'int16-array': np.int16, 'uint8-array': np.uint8,
+               'uint16-array': np.uint16, 'uint32-array': np.uint32, 'uint64-array': np.uint64, 'bool-array': bool,
+               'int-list': np.int64, 'int-tuple': np.int64}
+RCOS_FORMS = list(RCOS_SCALARS) + list(RCOS_ARRAYS)
+RCOS_PTYPES = ['float', 'np.float64', 'np.int64', 'keywords']        # spellings of alpha and T other than the plain literal
+
+
+def _rcos_kind(form):
+    if form in RCOS_SCALARS and not form.startswith('len1'):
+        return 'scalar'
+    dt = RCOS_ARRAYS.get(form, np.int64 if 'int' in form else np.float64)
+    return 'narrow-float-array' if dt in (np.float32, np.float16) else 'float-array' if dt is np.float64 else 'int-array'
 
 
 def fam_rcos(case):
     from opticomlib.utils import rcos
-    _, alpha, T, form = case
+    _, alpha, T, form = case[:4]
+    ptype = case[4] if len(case) > 4 else 'literal'
     A = Acc('rcos')
-    ints = form.startswith('int')
-    xs = rcos_ints(T) if ints else rcos_points(alpha, T)
+    kind = _rcos_kind(form)
+    al, TT = alpha, T
+    if ptype in ('float', 'np.float64', 'np.int64'):
+        conv = {'float': float, 'np.float64': np.float64, 'np.int64': np.int64}[ptype]
+        al, TT = conv(alpha), conv(T)
+    fn = (lambda x: rcos(x=x, alpha=al, T=TT)) if ptype == 'keywords' else (lambda x: rcos(x, al, TT))
+    sdt = RCOS_ARRAYS.get(form, {'np.float32-scalar': np.float32, 'np.int64-scalar': np.int64, 'np.int8-scalar': np.int8,
+                                 'int-scalar': np.int64, 'len1-int-lists': np.int64, 'bool-scalar': bool}.get(form, np.float64))
+    k = np.dtype(sdt).kind
+    eps = float(np.finfo(sdt).eps) if k == 'f' else EPS
+    if k == 'f':
+        xs = rcos_points(alpha, T, sdt)
+    elif k == 'b':
+        xs = [0, 1]
+    else:
+        xs = rcos_ints(T, sdt)
+        if form == 'int-scalar':
+            xs = sorted(set(xs) | {-2 ** 63 - 1, 2 ** 63, -10 ** 30, 10 ** 30})      # python ints are unbounded
     n = len(xs)
-    kind = 'scalar' if form in ('scalar', 'np.float64', 'int-scalar') else ('int-array' if ints else 'float-array')
-    if kind == 'scalar':
-        conv = {'scalar': float, 'np.float64': np.float64, 'int-scalar': int}[form]
+    lenient = form in RCOS_LENIENT
+    if form in RCOS_SCALARS:
+        conv = RCOS_SCALARS[form]
         H = []
         for x in xs:
-            st, v = call(rcos, conv(x), alpha, T)
+            arg = conv(x)
+            st, v = call(fn, arg)
             if st == 'exc':
-                A.v(f'rcos:raises-{type(v).__name__}:{kind}', f'rcos({conv(x)!r},{alpha},{T}) raised {v!r}')
+                if not (lenient and isinstance(v, (ValueError, TypeError)) and A.stat('numpy-scalar-type-refused(accepted)') is None):
+                    A.v(f'rcos:raises-{type(v).__name__}:{kind}', f'rcos({arg!r},{al!r},{TT!r}) raised {v!r}')
                 return A.done()
-            if np.ndim(v) != 0:
-                A.v(f'rcos:shape:{kind}', f'rcos({conv(x)!r},{alpha},{T}) returned {v!r}')
+            if np.size(v) != 1 or (np.ndim(v) != 0 and not form.startswith('len1')):
+                A.v(f'rcos:shape:{kind}', f'rcos({arg!r},{al!r},{TT!r}) returned {v!r}')
                 return A.done()
-            H.append(float(v))
+            H.append(float(np.asarray(v).reshape(())))
         H = np.array(H)
     else:
-        if form == 'array':
-            obj = np.array(xs, dtype=float)
-        elif form == 'list':
+        base = np.array(xs, dtype=sdt)
+        if form == 'list':
             obj = [float(x) for x in xs]
         elif form == 'tuple':
             obj = tuple(float(x) for x in xs)
         elif form == 'array2d':
             obj = np.array([xs, xs[::-1]], dtype=float)
-        elif form == 'int-array':
-            obj = np.array(xs, dtype=np.int64)
-        elif form == 'int32-array':
-            obj = np.array(xs, dtype=np.int32)
+        elif form == 'strided-view':
+            obj = np.repeat(base, 2)[::2]
         elif form == 'int-list':
             obj = [int(x) for x in xs]
-        else:
+        elif form == 'int-tuple':
             obj = tuple(int(x) for x in xs)
-        st, v = call(rcos, obj, alpha, T)
+        else:
+            obj = base
+        snap = _snap(obj)
+        st, v = call(fn, obj)
         if st == 'exc':
-            A.v(f'rcos:raises-{type(v).__name__}:{kind}', f'rcos({form} of {n} points,{alpha},{T}) raised {v!r}')
+            A.v(f'rcos:raises-{type(v).__name__}:{kind}', f'rcos({form} of {n} points,{al!r},{TT!r}) raised {v!r}')
             return A.done()
+        if _snap(obj) != snap:
+            A.v(f'rcos:input-modified:{kind}', f'rcos({form},{al!r},{TT!r}) changed its argument')
         v = np.asarray(v)
         if v.shape != np.shape(obj):
             A.v(f'rcos:shape:{kind}', f'rcos({form}) has shape {v.shape}, input shape {np.shape(obj)}')
@@ -443,52 +704,113 @@ def fam_rcos(case):
     cut = (1 + alpha) / (2 * T)
     flat = (1 - alpha) / (2 * T)
     true_cut = (1 + Fraction(alpha)) / (2 * Fraction(T))
-    # 'beyond (1+alpha)/(2T)': decided exactly when the corner is a representable number (dyadic alpha, T);
+    true_flat = (1 - Fraction(alpha)) / (2 * Fraction(T))
+    # 'beyond (1+alpha)/(2T)': decided exactly when the corner is a representable number (dyadic alpha, T; also in the sample type);
     # otherwise a 4 eps guard band around the corner is not judged (any implementation rounds the corner somehow)
-    guard = 0 if (Fraction(cut) == true_cut and Fraction(1 + alpha) == 1 + Fraction(alpha)) else 4 * Fraction(EPS)
+    exact = Fraction(cut) == true_cut and Fraction(1 + alpha) == 1 + Fraction(alpha) and (k != 'f' or float(sdt(cut)) == cut)
+    guard = 0 if exact else 4 * Fraction(eps)
+    exact_flat = Fraction(flat) == true_flat and (k != 'f' or float(sdt(flat)) == flat)
+    # one function, whatever the container: every form must agree with the plain float scalar call at the same x.
+    # H = (1+cos(theta))/2, theta = pi T/alpha (|x| - flat): evaluating theta in the sample type costs <= pi (1+alpha)/alpha eps
+    # + 2 pi eps, i.e. |dH| <= 2 (1 + 1/alpha) eps + 4 eps; 16 (1 + 1/alpha) eps is asserted (alpha = 0: values are 0 or 1)
+    agree_tol = 16 * (1 + (1 / alpha if alpha > 0 else 1)) * eps
+    index = {x: i for i, x in enumerate(xs)}
+    kind0 = kind
     for i, x in enumerate(xs):
         ax = abs(x)
         band = flat < ax <= cut
-        A.item((alpha, T, form, x), (kind, float(H[i]).hex()), nontrivial=bool(band or ax in (flat, half, cut)))
-        where = f'rcos(x={x!r}, alpha={alpha}, T={T}) as {form}'
-        if not (-4 * EPS <= H[i] <= 1 + 4 * EPS):
+        A.item((alpha, T, form, ptype, x), (kind, float(H[i]).hex()), nontrivial=bool(band or ax in (flat, half, cut)))
+        where = f'rcos(x={x!r}, alpha={al!r}, T={TT!r}) as {form}'
+        if k == 'i' and np.iinfo(sdt).min in (x, -x):
+            kind = kind0 + ':int-min'          # the most negative value of the integer type (|x| is not representable in the type)
+        else:
+            kind = kind0
+        if not (-4 * eps <= H[i] <= 1 + 4 * eps):
             A.v(f'rcos:range:{kind}', f'{where} = {H[i]!r} outside [0,1]')
-        if not abs(H[i] - H[n - 1 - i]) <= 4 * EPS:
-            A.v(f'rcos:even:{kind}', f'{where} = {H[i]!r} but at -x: {H[n - 1 - i]!r}')
-        if alpha > 0 and ax == half and not abs(H[i] - 0.5) <= 1e-12:
+        j = index.get(-x)
+        if j is not None and not abs(H[i] - H[j]) <= 4 * eps:
+            A.v(f'rcos:even:{kind}', f'{where} = {H[i]!r} but at -x: {H[j]!r}')
+        if alpha > 0 and ax == half and not abs(H[i] - 0.5) <= max(1e-12, agree_tol):
             A.v(f'rcos:half-value:{kind}', f'{where} = {H[i]!r}, expected 1/2 at |x| = 1/(2T) = {half}')
-        if Fraction(ax) > true_cut * (1 + guard) and not abs(H[i]) <= 1e-15:
+        beyond = Fraction(ax) > true_cut * (1 + guard)
+        if beyond and not abs(H[i]) <= 1e-15:
             A.v(f'rcos:vanish:{kind}', f'{where} = {H[i]!r}, expected 0 beyond (1+alpha)/(2T) = {cut}')
+        if form != 'scalar' and abs(x) < 2 ** 1023 and kind == kind0:      # (the int-min points are reported by their clause only)
+            near_cut = not exact and abs(Fraction(ax) - true_cut) <= 4 * Fraction(eps) * true_cut
+            near_flat = not exact_flat and abs(Fraction(ax) - true_flat) <= 4 * Fraction(eps) * true_flat
+            if not (near_cut or near_flat):
+                st, h0 = call(rcos, float(x), alpha, T)
+                if st == 'ok' and not abs(H[i] - float(h0)) <= agree_tol:
+                    A.v(f'rcos:differs-from-scalar-call:{kind}', f'{where} = {H[i]!r}, but rcos({float(x)!r}, {alpha}, {T}) = {h0!r}')
     return A.done()
 
 
 # ===================================================================== dec2bin
+D2B_TYPES = {'int': int, 'bool': bool, 'int8': np.int8, 'uint8': np.uint8, 'int16': np.int16, 'uint16': np.uint16, 'int32': np.int32,
+             'uint32': np.uint32, 'int64': np.int64, 'uint64': np.uint64}
+
+
+def _d2b_fits(v, tname):
+    if tname == 'int':
+        return True
+    if tname == 'bool':
+        return v in (0, 1)
+    ii = np.iinfo(D2B_TYPES[tname])
+    return ii.min <= v <= ii.max
+
+
 def fam_d2b(case):
+    """('d2b', d, lo, hi[, type of v, type of d, call form]): every lo <= v < hi with d digits; at the end of the range of d also
+    the too-large values.  Types: python int (default) or a numpy integer type / bool for v and for d - values that do not
+    fit the type are skipped.  The statement does not say what a digit count of type np.uint64 means for numpy's
+    uint64-with-int arithmetic (it promotes to float64): that type is not used for d.
+    call form: 'pos' dec2bin(v, d) | 'kw' dec2bin(num=v, digits=d) | 'default' dec2bin(v) with d = 8"""
     from opticomlib.utils import dec2bin
-    _, d, lo, hi = case
+    _, d, lo, hi = case[:4]
+    vt, dtn, cform = (case[4:] + ('int', 'int', 'pos')[len(case) - 4:]) if len(case) > 4 else ('int', 'int', 'pos')
     A = Acc('dec2bin')
+    cls = '' if (vt, dtn) == ('int', 'int') else ':numpy-int'
+    if not _d2b_fits(d, dtn):
+        return A.done()
+    dd = D2B_TYPES[dtn](d)
+    f = {'pos': lambda v: dec2bin(v, dd), 'kw': lambda v: dec2bin(num=v, digits=dd), 'default': lambda v: dec2bin(v)}[cform]
     shifts = np.arange(d - 1, -1, -1)
     for v in range(lo, hi):
-        st, b = call(dec2bin, v, d)
+        if not _d2b_fits(v, vt):
+            continue
+        vv = D2B_TYPES[vt](v)
+        st, b = call(f, vv)
         if st == 'exc':
-            A.v(f'dec2bin:raises-{type(b).__name__}', f'dec2bin({v},{d}) raised {b!r}')
+            A.v(f'dec2bin:raises-{type(b).__name__}{cls}', f'dec2bin({vv!r},{dd!r}) raised {b!r}')
             continue
         b = np.asarray(b)
-        A.item((v, d), (d, b.tobytes()), nontrivial=v >= 1)
+        A.item((v, d, vt, dtn, cform), (d, b.tobytes()), nontrivial=v >= 1)
         if b.shape != (d,):
-            A.v('dec2bin:length', f'dec2bin({v},{d}) has shape {b.shape}')
+            A.v(f'dec2bin:length{cls}', f'dec2bin({vv!r},{dd!r}) has shape {b.shape}')
             continue
         want = (v >> shifts) & 1
         if not np.array_equal(b.astype(np.int64), want):
-            A.v('dec2bin:expansion', f'dec2bin({v},{d}) = {b.tolist()}, expected {format(v, f"0{d}b")}')
+            A.v(f'dec2bin:expansion{cls}', f'dec2bin({vv!r},{dd!r}) = {b.tolist()}, expected {format(v, f"0{d}b") if d else "no digits"}')
+    if lo == 0 and (vt, dtn) == ('int', 'int'):
+        # negative v: the statement speaks of 0 <= v < 2^d and of too-large v only - recorded, not judged
+        for v in (-1, -2 ** d):
+            st, b = call(f, v)
+            A.item((v, d, 'neg', cform), ('exc', type(b).__name__) if st == 'exc' else arr_key(b), nontrivial=False)
+            A.stat('negative-v(not judged)')
     if hi == 2 ** d:
-        for v in (2 ** d, 2 ** d + 1):
-            st, b = call(dec2bin, v, d)
-            A.item((v, d), ('exc', type(b).__name__) if st == 'exc' else arr_key(b))
+        # too large: the first values beyond the range, the next power of two and its neighbours, far values
+        big = sorted({2 ** d, 2 ** d + 1, 2 ** d + 2 ** max(d - 1, 0), 2 ** (d + 1) - 1, 2 ** (d + 1), 2 ** (d + 1) + 1, 3 * 2 ** d,
+                      2 ** (2 * d + 1), 2 ** 31 - 1, 2 ** 31, 2 ** 32, 2 ** 63 - 1, 2 ** 63, 2 ** 64 - 1, 2 ** 64, 2 ** 64 + 1, 10 ** 30} - set(range(2 ** d)))
+        for v in big:
+            if not _d2b_fits(v, vt):
+                continue
+            vv = D2B_TYPES[vt](v)
+            st, b = call(f, vv)
+            A.item((v, d, vt, dtn, cform), ('exc', type(b).__name__) if st == 'exc' else arr_key(b))
             if st == 'ok':
-                A.v('dec2bin:no-ValueError', f'dec2bin({v},{d}) returned {np.asarray(b).tolist()}, ValueError required')
+                A.v(f'dec2bin:no-ValueError{cls}', f'dec2bin({vv!r},{dd!r}) returned {np.asarray(b).tolist()}, ValueError required')
             elif not isinstance(b, ValueError):
-                A.v(f'dec2bin:raises-{type(b).__name__}', f'dec2bin({v},{d}) raised {b!r}, ValueError required')
+                A.v(f'dec2bin:raises-{type(b).__name__}{cls}', f'dec2bin({vv!r},{dd!r}) raised {b!r}, ValueError required')
     return A.done()
 
 
@@ -501,11 +823,16 @@ F10 = Fraction(10)
 
 
 def si_inputs(e):
-    """x values of exponent group e (a list of (label, x))"""
+    """x values of exponent group e (a list of (label, x)): python floats and ints, and the same numbers as numpy scalars
+    (np.float64, np.float32 with the float32 neighbours of the decade constant, np.float16 where it has the range, 0-d array,
+    np.int64 / np.int32 / np.uint8 where the integer fits)"""
     out = []
     for m in SI_MANT:
-        out.append((f'{m}e{e}', float(f'{m}e{e}')))                 # correctly rounded decimal literal
-        out.append((f'{m}*10.0**{e}', float(m) * 10.0 ** e))        # product as a user would compute it
+        try:
+            out.append((f'{m}e{e}', float(f'{m}e{e}')))                 # correctly rounded decimal literal
+            out.append((f'{m}*10.0**{e}', float(m) * 10.0 ** e))        # product as a user would compute it
+        except OverflowError:
+            pass
     b = float(f'1e{e}')
     out.append((f'nextafter(1e{e},inf)', float(np.nextafter(b, np.inf))))
     if e > -15:
@@ -513,10 +840,28 @@ def si_inputs(e):
     if e >= 0:
         for m in (1, 2, 25, 999):
             out.append((f'int {m}*10**{e}', m * 10 ** e))
+    for lab, x in list(out):
+        if isinstance(x, int):
+            for dt in (np.int64, np.int32, np.uint8):
+                if _fits(x, dt) if abs(x) < 2 ** 64 else False:
+                    out.append((f'np.{dt.__name__}({lab})', dt(x)))
+            continue
+        out.append((f'np.float64({lab})', np.float64(x)))
+        out.append((f'np.array({lab})', np.array(x)))
+        with np.errstate(all='ignore'):
+            for dt in (np.float32, np.float16):
+                if abs(e) <= (37 if dt is np.float32 else 4):
+                    f = dt(x)
+                    out.append((f'np.{dt.__name__}({lab})', f))
+                    if lab.startswith('1e'):
+                        out.append((f'nextafter(np.{dt.__name__}({lab}),inf)', np.nextafter(f, dt(np.inf))))
+                        out.append((f'nextafter(np.{dt.__name__}({lab}),0)', np.nextafter(f, dt(0))))
     seen, uniq = set(), []
     for lab, x in out:
-        k = (type(x).__name__, x)
-        if x >= 1e-15 and k not in seen:          # the statement speaks of x >= 1e-15 only
+        k = (type(x).__name__, float(x) if not isinstance(x, (int, np.integer)) else int(x))
+        if isinstance(x, int) and x >= 2 ** 1023:
+            continue
+        if x >= 1e-15 and np.isfinite(float(x)) and k not in seen:          # the statement speaks of x >= 1e-15 only
             seen.add(k)
             uniq.append((lab, x))
     return uniq
@@ -530,13 +875,17 @@ def si_decade(x):
     return None
 
 
-def si_check(A, lab, x, unit, k):
+def si_check(A, lab, x, unit, k, form='pos'):
+    """form: 'pos' si(x, unit, k) | 'default' si(x) (unit 's', k = 1) | 'kw' si(x, unit=unit, k=k) | 'kw-k' si(x, k=k) (unit 's')"""
     from opticomlib.utils import si
-    p_exp = si_decade(x)
+    xv = int(x) if isinstance(x, (int, np.integer)) else float(np.asarray(x))        # the number itself, exactly
+    narrow = type(x) if isinstance(x, (np.float32, np.float16)) else None
+    eps = float(np.finfo(narrow).eps) if narrow else EPS
+    p_exp = si_decade(xv)
     name = SI_NAME[p_exp]
-    st, s = call(si, x, unit, k)
-    where = f'si({lab} = {x!r}, {unit!r}, k={k})'
-    A.item((repr(x), unit, k), s if st == 'ok' else ('exc', type(s).__name__), nontrivial=not (1 <= x < 1000))
+    st, s = call(*{'pos': (si, x, unit, k), 'default': (si, x), 'kw': (lambda: si(x, unit=unit, k=k),), 'kw-k': (lambda: si(x, k=k),)}[form])
+    where = f'si({lab} = {x!r}, {unit!r}, k={k!r})' + ('' if form == 'pos' else f' [{form} call]')
+    A.item((type(x).__name__, repr(xv), unit, int(k), type(k).__name__, form), s if st == 'ok' else ('exc', type(s).__name__), nontrivial=not (1 <= xv < 1000))
     if st == 'exc':
         A.v(f'si:raises-{type(s).__name__}:{name}', f'{where} raised {s!r}')
         return
@@ -546,21 +895,28 @@ def si_check(A, lab, x, unit, k):
         return
     p = SI_PREFIX[m.group(3)[:len(m.group(3)) - len(unit)]]
     ndec = len(m.group(2) or '')
-    fx = Fraction(x)
+    fx = Fraction(xv)
     printed = Fraction(m.group(1)) * F10 ** p
     # printed precision: half a unit of the last printed digit, plus the rounding of the one float product
-    # x*1e(-p) that any implementation needs before formatting (2 ulp of x)
-    tol = Fraction(1, 2) * F10 ** (p - ndec) + 4 * Fraction(EPS) * fx
+    # x*1e(-p) that any implementation needs before formatting (2 ulp of x, in the floating type of x)
+    tol = Fraction(1, 2) * F10 ** (p - ndec) + 4 * Fraction(eps) * fx
     if abs(printed - fx) > tol:
         A.v(f'si:roundtrip:{name}', f'{where} = {s!r}: {m.group(1)} x 1e{p} = {float(printed)!r} differs from x by {float(abs(printed - fx)):.3e} '
                                      f'(printed precision {float(tol):.3e})')
-    if x < 1e15:
+    if xv < 1e15:
         # unrounded mantissa x/10^p in [1,1000): thresholds read as the doubles 1e<p>, 1e<p+3> (what the literals of the
-        # statement denote) or as exact powers of ten - either reading is accepted, no numeric slack is needed
-        float_rule = float(f'1e{p}') <= x < float(f'1e{p + 3}')
+        # statement denote) or as exact powers of ten (or, for a float32/float16 x, as those constants rounded to the type of x,
+        # which is how numpy >= 2 compares) - any of these readings is accepted, no numeric slack is needed
+        float_rule = float(f'1e{p}') <= xv < float(f'1e{p + 3}')
         exact_rule = F10 ** p <= fx < F10 ** (p + 3)
-        if not (float_rule or exact_rule):
+        with np.errstate(all='ignore'):
+            type_rule = narrow is not None and float(narrow(f'1e{p}')) <= xv < float(narrow(f'1e{p + 3}'))
+        if not (float_rule or exact_rule or type_rule):
             A.v(f'si:mantissa-range:{name}', f'{where} = {s!r}: unrounded mantissa x/1e{p} = {float(fx / F10 ** p)!r} not in [1,1000)')
+
+
+SI_EXTRA = [('s', 2, 'pos'), ('Hz', 6, 'pos'), ('s', np.int64(1), 'pos'), ('m', 1, 'pos'), ('Ohm', 1, 'pos'), ('', 1, 'pos'), ('mm', 0, 'pos'),
+            ('s', 1, 'default'), ('Hz', 3, 'kw'), ('s', 0, 'kw-k')]      # other k, units (also the ambiguous 'm'), call forms
 
 
 def fam_si(case):
@@ -570,6 +926,8 @@ def fam_si(case):
         for k in (0, 1, 3):
             for unit in ('s', 'Hz'):
                 si_check(A, lab, x, unit, k)
+        for unit, k, form in SI_EXTRA:
+            si_check(A, lab, x, unit, k, form)
     return A.done()
 
 
@@ -630,7 +988,9 @@ def s2a_expect(text, vals, r, c):
     return out
 
 
-def s2a_one(A, alph, text, exp, nontrivial=True):
+def s2a_one(A, alph, text, exp, nontrivial=True, lenient=False):
+    """lenient: a spelling the statement does not explicitly list (but that has one reading only): ValueError is accepted,
+    a returned array is judged like any other"""
     from opticomlib.utils import str2array
     for dt in DTYPES:
         spec = exp[dt]
@@ -644,6 +1004,9 @@ def s2a_one(A, alph, text, exp, nontrivial=True):
         if st == 'exc':
             if spec[0] == 'lossy' and isinstance(a, (ValueError, TypeError)):
                 A.stat('lossy-cast-refused(accepted)')
+                continue
+            if lenient and isinstance(a, ValueError):
+                A.stat('unlisted-spelling-refused(accepted)')
                 continue
             k = 'ValueError-on-valid' if isinstance(a, ValueError) else f'raises-{type(a).__name__}'
             A.v(f'str2array:{k}:{alph}', f'{where} raised {a!r}')
@@ -768,6 +1131,19 @@ def fam_bits(case):
                     numeric = all(_canon_int(t) for t in toks)
                     for dt in (int, float, complex):
                         exp[dt] = ('exact', np.array([int(t) for t in toks]).astype(dt)) if numeric else None
+                    _bits_one(A, alph, text, exp)
+    elif rows == 3:
+        # three rows of L digits each, every tokenisation of every row (first row starts with the prefix `first`)
+        allrows = [(b, _split_tokens(b, m)) for b in [''.join(t) for t in itertools.product('01', repeat=L)] for m in range(2 ** (L - 1))]
+        for (b1, t1), (b2, t2), (b3, t3) in itertools.product([x for x in allrows if x[0].startswith(first)], allrows, allrows):
+            want_bits = np.array([[int(ch) for ch in b] for b in (b1, b2, b3)], dtype=np.int64)
+            numeric = len(t1) == len(t2) == len(t3) and all(_canon_int(t) for t in t1 + t2 + t3)
+            for es in (ELEM_SEPS if max(len(t1), len(t2), len(t3)) > 1 else ELEM_SEPS[:1]):
+                for rs in ROW_SEPS:
+                    text = rs.join([es.join(t1), es.join(t2), es.join(t3)])
+                    exp = {None: ('bits', want_bits), bool: ('bits', want_bits)}
+                    for dt in (int, float, complex):
+                        exp[dt] = ('exact', np.array([[int(t) for t in tt] for tt in (t1, t2, t3)]).astype(dt)) if numeric else None
                     _bits_one(A, alph, text, exp)
     else:
         allrows = [(b, _split_tokens(b, m)) for b in [x + ''.join(t) for x in '01' for t in itertools.product('01', repeat=L - 1)]
@@ -1026,8 +1402,14 @@ FAMILIES = {'db': fam_db, 'dbv': fam_dbv, 'q': fam_q, 'gaus': fam_gaus, 'rcos': 
             'si': fam_si, 's2a': fam_s2a, 'bits': fam_bits, 'bad': fam_bad, 'one': fam_one, 'fresh': fam_fresh}
 
 
+def _hard():
+    from mcx.props import c19_hard          # imported lazily: c19_hard imports this module
+    return c19_hard
+
+
 def case_fn(case):
-    return FAMILIES[case[0]](case)
+    f = FAMILIES.get(case[0])
+    return (f or _hard().FAMILIES[case[0]])(case)
 
 
 # ===================================================================== driver
@@ -1100,28 +1482,51 @@ def run(ctx):
     part('db.dBvalues', [('dbv', lo, min(lo + step, len(DBVALS))) for lo in range(0, len(DBVALS), step)])
 
     # -- Q, gaus
-    part('Q', [('q', f) for f in ('scalar', 'scalar-mixed', 'array', 'list', 'tuple2d')])
-    part('gaus', [('gaus', mu, sd) for mu, sd in GAUS_PAR])
+    part('Q', [('q', f) for f in Q_FORMS])
+    part('gaus', [('gaus', mu, sd) for mu, sd in GAUS_PAR + GAUS_SCALE])
 
     # -- rcos
     alphas = [0, 0.25, 0.5, 1]
     Ts = [1, 0.5, 2, 0.25]
     if not quick:
         alphas += [0.3, 0.75]
-        Ts += [0.3, 4]
-    part('rcos', [('rcos', a, T, f) for f in RCOS_FORMS for T in Ts for a in alphas])
+        Ts += [0.3, 4, 0.125]
+    rc = [('rcos', a, T, f) for f in RCOS_FORMS for T in Ts for a in alphas]
+    # spellings of alpha and T (float / numpy scalars / keywords) for one scalar, one float-array and one integer-array form
+    rc += [('rcos', a, T, f, pt) for pt in RCOS_PTYPES for f in ('scalar', 'array', 'int-array') for T in Ts for a in alphas
+           if pt != 'np.int64' or (float(a).is_integer() and float(T).is_integer())]
+    # scale: nanosecond / picosecond symbol periods (x in GHz / THz) and a period of 1e9
+    Tscale = [1e-9, 1e9] + ([] if quick else [1e-12, 2.5e-11, 1e6])
+    rc += [('rcos', a, T, f) for f in RCOS_FORMS for T in Tscale for a in ([0, 0.5, 1] if quick else alphas)
+           if not f.startswith('bool') and f != 'float16-array']
+    part('rcos', rc)
 
-    # -- dec2bin: every (v, d)
-    d2b = []
+    # -- dec2bin: every (v, d), d = 0 included; numpy integer types for v and d; keyword and default-digits calls
+    d2b = [('d2b', 0, 0, 1)]
     for d in range(1, 17):
         n = 2 ** d
         blk = 4096
         for lo in range(0, n, blk):
             d2b.append(('d2b', d, lo, min(lo + blk, n)))
+    d2b += [('d2b', 8, 0, 256, 'int', 'int', 'default')] + [('d2b', d, 0, 2 ** d, 'int', 'int', 'kw') for d in (0, 1, 5, 8)]
+    d2b += [('d2b', d, 0, 2 ** d, 'bool', 'int', 'pos') for d in (0, 1, 2)]
+    nptypes = [t for t in D2B_TYPES if t not in ('int', 'bool')]
+    dmax_np = 10 if quick else 16         # quick: every (v, d) with d <= 10 in every type pairing, then d = 16 in the widest
+    for vt in nptypes + ['int']:
+        for dtn in ['int'] + [t for t in nptypes if t != 'uint64']:
+            if (vt, dtn) == ('int', 'int'):
+                continue
+            aligned = dtn in ('int', vt) or vt == 'int'      # v typed with d plain, d typed with v plain, both of the same type
+            if quick and not aligned:
+                continue
+            for d in list(range(0, (dmax_np if aligned else 12) + 1)) + ([16] if quick and vt in ('int32', 'uint16', 'int64', 'uint64') else []):
+                n = 2 ** d
+                for lo in range(0, n, 8192):
+                    d2b.append(('d2b', d, lo, min(lo + 8192, n), vt, dtn, 'pos'))
     part('dec2bin', d2b)
 
     # -- si
-    part('si', [('si', e) for e in sorted(range(-15, 15), key=lambda e: (abs(e), e < 0))] + [('si', 15)])
+    part('si', [('si', e) for e in sorted(range(-15, 15), key=lambda e: (abs(e), e < 0))] + [('si', e) for e in (15, 16, 18, 21, 30, 100, 300, 308)])
 
     # -- str2array
     alphs = ['int', 'float', 'complex'] + ([] if quick else ['complex-full'])
@@ -1149,7 +1554,8 @@ def run(ctx):
         n = 1 if L < 8 else 3
         return [''.join(t) for t in itertools.product('01', repeat=n)]
     bits = [('bits', L, first, 1) for L in range(1, Lmax1 + 1) for first in prefixes(L)] + \
-           [('bits', L, first, 2) for L in range(1, Lmax2 + 1) for first in '01']
+           [('bits', L, first, 2) for L in range(1, Lmax2 + 1) for first in '01'] + \
+           [('bits', L, first, 3) for L in range(1, (2 if quick else 3) + 1) for first in '01']
     part('str2array.bit-patterns', bits)
     def bad_cases(alph, mode, step, bases=None):
         al = bad_alphabet(alph)
@@ -1163,6 +1569,10 @@ def run(ctx):
     if not quick:
         part('str2array.invalid-characters.unicode-more', bad_cases('uni2', 'insert', 400))
         part('str2array.invalid-characters.every-code-point', bad_cases('all', 'ends', 8000, bases=[2, 5, nbases - 1]))
+
+    # -- hardening pass: extreme magnitudes, integer sample grids, other spellings, shared-input sweeps (mcx/props/c19_hard.py)
+    for name, cs in _hard().cases(quick):
+        part(name, cs)
 
     # -- repeated calls return fresh results
     part('repeated-calls', [('fresh', i) for i in range(len(FRESH_TEXTS))])
